@@ -11,7 +11,7 @@ case   ::= {"heap": [object...], "doms": [[key, [heap index...]]...], "binders":
 object ::= list of field values in FIELD order
 """
 
-FIELDS = ['a', 'b', 's', 'items', 'n', 'f', 'pair', 'peer', 'big()', 'groups']      # index = field id in the Coq heap
+FIELDS = ['a', 'b', 's', 'items', 'n', 'f', 'pair', 'peer', 'big()', 'groups', 'dmap']      # index = field id in the Coq heap
 OPS = ['==', '!=', '<', '<=', '>', '>=']
 COQ_OP = {'==': 'Eq', '!=': 'Ne', '<': 'Lt', '<=': 'Le', '>': 'Gt', '>=': 'Ge'}
 
